@@ -195,6 +195,33 @@ CLAIMS = {
        "context-level stand-in runs under the OS scheduler only.",
   technique="bounded stand-in on the real code (controlled completion orders); contract-based proof of multi_run not available",
   design_ref="DESIGN.md section 6 (C15) and 10"),
+ "C08": dict(
+  category="proof",
+  text="Contract-based deductive proof over the real source of Plugin.do_compute, for every pair / triple of input chunks (per arity 1..3): a "
+       "plugin that saves by default reaches its computation only with inputs that all cover one identical time interval (otherwise "
+       "ValueError before compute), the computation gets exactly the rows of every input (chunk_i / start / end exactly when it takes "
+       "them), the result is declared to cover exactly that interval and inherits the inputs' common run annotations; Chunk.split (used "
+       "for every trim) obeys the laws of chunking. The behaviour of Plugin.iter as a whole - time-aligned adjacent calls, same-kind "
+       "inputs merged row by row, every input row delivered exactly once in order, errors for undeliverable rows - is a bounded stand-in "
+       "on the real Plugin.iter driven by hand-made chunk iterators (found defect F11, fixed).",
+  note="Plugin.iter (generator over a dict of input buffers with pacemaker, fetch loops, re-trim passes and end-of-run checks) is not "
+       "under contract; Chunk.concatenate / merge are covered by bounded stand-ins only. do_compute is verified per arity for "
+       "single-output plugins.",
+  technique="contract-based deductive verification (per-arity symbolic execution with recorded call arguments) + bounded stand-in on the real Plugin.iter",
+  design_ref="DESIGN.md section 6 (C08) and 10"),
+ "C09": dict(
+  category="proof",
+  text="Contract-based deductive proof over the real source of OverlapWindowPlugin._get_window_size (a number w gives (w, w); a pair is "
+       "used as (look-back, look-ahead) and neither part may be negative; anything else is refused) and of Chunk.split, the operation "
+       "that drops what was sent, withholds what is not final and caches inputs (an early split never moves later than requested, "
+       "halves adjacent, rows wholly on one side). That the concatenated output over every chunking equals the whole-run computation, "
+       "with contiguous and (multi-output) aligned chunks, is a bounded stand-in on the real OverlapWindowPlugin through the real "
+       "Plugin.iter.",
+  note="OverlapWindowPlugin.do_compute and cache_beyond (window arithmetic invalid_beyond / sent_until / cache_inputs_beyond over dicts "
+       "of cached chunks, retry loop) are not yet under contract - bounded stand-in only. Window-locality of the user's computation is "
+       "a premise.",
+  technique="contract-based deductive verification (2 functions) + bounded stand-in on the real OverlapWindowPlugin",
+  design_ref="DESIGN.md section 6 (C09) and 10"),
 }
 
 NA_REASON = "check not built yet (see DESIGN.md section 6 for the plan)"
